@@ -481,6 +481,11 @@ class WCSImageCatalog(object):
             # TODO: a more robust algorithm should be implemented to deal with
             #       len(x) in [1, 2] cases.
 
+            if len(ra) < 4:
+                # all sources are colinear (or coincident): the convex hull
+                # is degenerate. Use entire image footprint.
+                return
+
             self._bb_radec = (ra, dec)
             self._polygon = SphericalPolygon.from_radec(ra, dec)
             self._poly_area = np.fabs(self._polygon.area())
